@@ -16,7 +16,7 @@ INT_RE = re.compile(r"^[+-]?\d+$")
 
 # thresholds of the oracle (DESIGN C19): header and body *clearly agree* when every bound is within
 # AGREE (relative) of the body's extreme; they *clearly disagree* when a bound is off by more than
-# DISAGREE relative to the magnitude of the range and by more than DISAGREE_ABS in absolute terms
+# DISAGREE relative to the magnitude of THAT bound and by more than DISAGREE_ABS in absolute terms
 # (the code's documented comparison is numpy.allclose, rtol 1e-5 / atol 1e-8: everything between is either-way).
 AGREE = 1e-6
 AGREE_ABS = 1e-30
@@ -143,7 +143,9 @@ def parse_surfer(text, dtype="float64"):
     elif agree:
         p.status = "ok" if p.layout == "one_row_per_line" else "wrapped"
         p.reason = p.layout
-    elif off > DISAGREE * scale and off > DISAGREE_ABS:
+    elif any(abs(b - h) > DISAGREE * max(abs(b), abs(h)) and abs(b - h) > DISAGREE_ABS for b, h in ((bmin, hmin), (bmax, hmax))):
+        # per bound: the minimum (maximum) written in the header disagrees with the body's own minimum (maximum) - however small that is
+        # against the other end of the range (documented comparison: numpy.allclose element by element)
         return _refuse(p, "range: body [%r, %r] vs header [%r, %r]" % (bmin, bmax, hmin, hmax))
     else:
         p.status, p.reason = "either", "range within the either-way band"
@@ -226,7 +228,7 @@ def fmt_number(rng, value, style=None):
     """One of several legal spellings of a float (the spelling, not `value`, is what the file then says)."""
     value = float(value)
     if style is None:
-        style = str(rng.choice(["g17", "repr", "g", "e", "e10", "plus", "upper", "int", "f", "padexp"]))
+        style = str(rng.choice(["g17", "repr", "g", "e", "e10", "plus", "upper", "int", "f", "padexp", "nolead"]))
     if style == "int" and value == int(value) and abs(value) < 1e15:
         return "%d" % int(value)
     if style == "f" and 1e-3 < abs(value) < 1e12:
@@ -244,17 +246,34 @@ def fmt_number(rng, value, style=None):
         return text if text.startswith("-") else "+" + text
     if style == "upper":
         return ("%.12e" % value).upper()
+    if style == "nolead":  # '.5', '-.5', '+.5E+01': no digit before the decimal point
+        mant, exp = ("%.9e" % abs(value)).split("e")
+        digits = mant.replace(".", "").rstrip("0") or "0"
+        sign = "-" if value < 0 else str(rng.choice(["", "+"]))
+        power = int(exp) + 1
+        if value == 0:
+            return sign + ".0"
+        return "%s.%s" % (sign, digits) if power == 0 else "%s.%sE%+03d" % (sign, digits, power)
     if style == "padexp":
         mant, exp = ("%.8e" % value).split("e")
         return "%se%s%03d" % (mant, exp[0], int(exp[1:]))
     return "%.17g" % value
 
 
-def random_values(rng, shape, dtype):
+WIDE_KINDS = ["wide_positive", "wide_negative", "wide_small"]
+
+
+def random_values(rng, shape, dtype, kind=None):
     """Finite grid values of any magnitude, with negatives and repeats."""
-    kind = str(rng.choice(["smooth", "integers", "mixed", "offset", "near_sentinel", "tiny", "constant", "huge_negative", "repeats"],
+    kind = kind or str(rng.choice(["smooth", "integers", "mixed", "offset", "near_sentinel", "tiny", "constant", "huge_negative", "repeats"],
                           p=[0.2, 0.15, 0.15, 0.12, 0.1, 0.08, 0.04, 0.06, 0.1]))
     n = shape[0] * shape[1]
+    if kind in WIDE_KINDS:  # a wide dynamic range: the small-magnitude end is tiny against the other end
+        lo, hi = {"wide_positive": (0.5, 250000.0), "wide_negative": (0.5, 250000.0), "wide_small": (1e-3, 1e4)}[kind]
+        vals = 10 ** rng.uniform(np.log10(lo), np.log10(hi), n)
+        vals[0], vals[-1] = lo * float(rng.choice([1.0, 1.0, 0.7, 3.0])), hi * float(rng.choice([1.0, 1.0, 0.6]))
+        vals = rng.permutation(vals) * (-1.0 if kind == "wide_negative" else 1.0)
+        return kind, vals.reshape(shape)
     if kind == "smooth":
         vals = rng.normal(size=n) * 10 ** rng.uniform(-6, 9)
     elif kind == "integers":
@@ -361,14 +380,14 @@ class Spec:
         return text
 
 
-def random_spec(rng, dtype="float64", shape=None, blanks=None, small=False, plain=False):
+def random_spec(rng, dtype="float64", shape=None, blanks=None, small=False, plain=False, value_kind=None):
     """A well-formed file whose header is exact for the values *as they are spelled in the body*."""
     sp = Spec()
     if shape is None:
         shape = random_shape(rng, 8 if small else 40, 8 if small else 60)
     sp.shape = shape
-    sp.kind, vals = random_values(rng, shape, dtype)
-    style = None if rng.random() < 0.5 else str(rng.choice(["g17", "repr", "g", "e", "e10", "plus", "upper", "int", "f", "padexp"]))
+    sp.kind, vals = random_values(rng, shape, dtype, value_kind)
+    style = None if rng.random() < 0.5 else str(rng.choice(["g17", "repr", "g", "e", "e10", "plus", "upper", "int", "f", "padexp", "nolead"]))
     tokens = [[fmt_number(rng, v, style) for v in row] for row in vals]
     if blanks is None:
         blanks = rng.random() < 0.6
@@ -420,7 +439,7 @@ def random_spec(rng, dtype="float64", shape=None, blanks=None, small=False, plai
             ztoks.append(repr(float(typed[i, j])))
     sp.z = ztoks
     sp.counts = ["%d" % shape[0], "%d" % shape[1]]
-    coord_style = str(rng.choice(["g17", "repr", "g", "f", "e", "int"]))
+    coord_style = str(rng.choice(["g17", "repr", "g", "f", "e", "int", "nolead"]))
 
     def tokens(n_nodes, want_tricky):
         """Two range tokens; when asked, search for a range whose accumulated end start + step*(n-1) misses the stop in floating point."""
@@ -569,6 +588,23 @@ def header_faults(rng, sp):
         hdr = list(base)
         hdr[4] = [_shift_token(t, factor=factor) for t in base[4]]
         emit("range_scaled_z", hdr)
+    # the SMALL-magnitude end of a wide data range corrupted by amounts that are large against that bound but small against the other end
+    # (zmin 0.5 -> 2.0, 0.0, -1.5 with zmax 250000), and the same absolute amounts applied to the large end as control
+    small_k, large_k = (0, 1) if abs(zlo) <= abs(zhi) else (1, 0)
+    small_v, large_v = float(base[4][small_k]), float(base[4][large_k])
+    if small_v != 0 and abs(small_v) < 1e-3 * abs(large_v):
+        for label, new in (("times_4", 4.0 * small_v), ("to_zero", 0.0), ("sign_flipped_times_3", -3.0 * small_v), ("plus_fraction_of_other_end", small_v + 0.9e-5 * abs(large_v)),
+                           ("minus_fraction_of_other_end", small_v - 0.9e-5 * abs(large_v))):
+            toks = list(base[4])
+            toks[small_k] = "%.17g" % new
+            hdr = list(base)
+            hdr[4] = toks
+            emit("wide_range_small_end_%s" % label, hdr)
+            toks = list(base[4])
+            toks[large_k] = "%.17g" % (large_v + (new - small_v))
+            hdr = list(base)
+            hdr[4] = toks
+            emit("wide_range_large_end_same_amount_control", hdr)
     # a header line dropped or duplicated
     for k in range(5):
         emit("line_dropped_%d" % (k + 1), base[:k] + base[k + 1:])
